@@ -11,6 +11,10 @@
 package main
 
 import (
+	"bytes"
+	"crypto/ecdsa"
+	"crypto/elliptic"
+	"crypto/sha256"
 	"encoding/hex"
 	"encoding/json"
 	"flag"
@@ -340,6 +344,244 @@ func keyOf(hexkey string) (vrf.PrivateKey, vrf.PublicKey) {
 	return sk, pk
 }
 
+// ---- the VRF, stated independently of PublicKey.ProofToHash ------------------
+
+func ecdsaOf(hexkey string) *ecdsa.PrivateKey {
+	d, _ := hex.DecodeString(hexkey)
+	k, err := crypto.ToECDSA(d)
+	if err != nil {
+		return nil
+	}
+	return k
+}
+
+func pubOf(pk vrf.PublicKey) *ecdsa.PublicKey {
+	if p, ok := pk.(*secp256k1VRF.PublicKey); ok {
+		return p.PublicKey
+	}
+	return nil
+}
+
+var errRef = fmt.Errorf("invalid VRF proof")
+
+// challenge: H2(G, H, pk, vrfData, U, V)
+func vrfChallenge(pub *ecdsa.PublicKey, hx, hy *big.Int, vrfData []byte, ux, uy, vx, vy *big.Int) *big.Int {
+	c := crypto.S256()
+	var b bytes.Buffer
+	b.Write(elliptic.Marshal(c, c.Params().Gx, c.Params().Gy))
+	b.Write(elliptic.Marshal(c, hx, hy))
+	b.Write(elliptic.Marshal(c, pub.X, pub.Y))
+	b.Write(vrfData)
+	b.Write(elliptic.Marshal(c, ux, uy))
+	b.Write(elliptic.Marshal(c, vx, vy))
+	return secp256k1VRF.H2(b.Bytes())
+}
+
+// refDecode: the accepted encodings of the VRF point: 65 bytes, tag 4,
+// coordinates below the field prime, on the curve.  raw x, y and IsOnCurve(x,y)
+// are reported whatever the tag is.
+func refDecode(d []byte) (x, y *big.Int, onCurve, ok bool) {
+	c := crypto.S256()
+	if len(d) != 65 {
+		return nil, nil, false, false
+	}
+	x, y = new(big.Int).SetBytes(d[1:33]), new(big.Int).SetBytes(d[33:65])
+	func() {
+		defer func() { recover() }()
+		onCurve = c.IsOnCurve(x, y)
+	}()
+	ok = d[0] == 4 && x.Cmp(c.Params().P) < 0 && y.Cmp(c.Params().P) < 0 && onCurve
+	return
+}
+
+// refDleq: the group-level check s == H2(G, H, pk, vrfData, [t]G+[s]pk, [t]H+[s](x,y))
+func refDleq(pub *ecdsa.PublicKey, m, sB, tB []byte, x, y *big.Int, vrfData []byte) (ok bool) {
+	defer func() {
+		if recover() != nil {
+			ok = false
+		}
+	}()
+	c := crypto.S256()
+	tGx, tGy := c.ScalarBaseMult(tB)
+	ksGx, ksGy := c.ScalarMult(pub.X, pub.Y, sB)
+	ux, uy := c.Add(tGx, tGy, ksGx, ksGy)
+	hx, hy := secp256k1VRF.H1(m)
+	tHx, tHy := c.ScalarMult(hx, hy, tB)
+	sHx, sHy := c.ScalarMult(x, y, sB)
+	vx, vy := c.Add(tHx, tHy, sHx, sHy)
+	h2 := vrfChallenge(pub, hx, hy, vrfData, ux, uy, vx, vy)
+	return new(big.Int).SetBytes(sB).Cmp(h2) == 0
+}
+
+// refP2H: ProofToHash as the VRF defines it (independent of the implementation's parsing)
+func refP2H(pub *ecdsa.PublicKey, m, proof []byte) (out [32]byte, err error) {
+	if pub == nil || len(proof) != 129 {
+		return out, errRef
+	}
+	d := proof[64:129]
+	x, y, _, ok := refDecode(d)
+	if !ok || !refDleq(pub, m, proof[0:32], proof[32:64], x, y, d) {
+		return out, errRef
+	}
+	return sha256.Sum256(d), nil
+}
+
+// libVsRef runs the implementation's ProofToHash and the reference on the same
+// input; what != "" if they differ.
+func libVsRef(pk vrf.PublicKey, m, proof []byte) (out [32]byte, err error, what string) {
+	out, err = refP2H(pubOf(pk), m, proof)
+	var lo [32]byte
+	var lerr error
+	func() {
+		defer func() {
+			if r := recover(); r != nil {
+				lerr = fmt.Errorf("panic: %v", r)
+			}
+		}()
+		lo, lerr = pk.ProofToHash(m, proof)
+	}()
+	switch {
+	case lerr == nil && err != nil:
+		what = "ProofToHash accepts a proof that is not a valid VRF proof for this key and message (non-canonical or foreign encoding accepted)"
+	case lerr != nil && err == nil:
+		what = "ProofToHash rejects a valid VRF proof: " + lerr.Error()
+	case lerr == nil && lo != out:
+		what = "ProofToHash returns another output than sha256 of the VRF point encoding"
+	}
+	return
+}
+
+// forgeProof: what the OWNER of the key can build: s and t are computed the way
+// Evaluate does (fixed nonce from arg), over whatever point encoding the
+// variant puts into the proof.
+func forgeProof(k *ecdsa.PrivateKey, m []byte, variant string, arg int64) []byte {
+	c := crypto.S256()
+	P, N := c.Params().P, c.Params().N
+	r := new(big.Int).Add(big.NewInt(0x5eed0000), big.NewInt(arg%100000+1))
+	hx, hy := secp256k1VRF.H1(m)
+	px, py := c.ScalarMult(hx, hy, k.D.Bytes()) // the genuine point [k]H1(m)
+	vrfData := elliptic.Marshal(c, px, py)
+	switch variant {
+	case "forge_tag": // same point, another tag byte
+		tags := []byte{0, 1, 2, 3, 5, 6, 7, 0x40, 0x84, 0xff, byte(arg)}
+		vrfData[0] = tags[int(arg>>8)%len(tags)]
+		if vrfData[0] == 4 {
+			vrfData[0] = 6
+		}
+	case "forge_point": // another curve point: [k+1]H
+		k1 := new(big.Int).Add(k.D, big.NewInt(1+arg%5))
+		qx, qy := c.ScalarMult(hx, hy, k1.Bytes())
+		vrfData = elliptic.Marshal(c, qx, qy)
+	case "forge_negy": // the negated point
+		vrfData = elliptic.Marshal(c, px, new(big.Int).Sub(P, py))
+	case "forge_xgep": // a small point with X written as X + p (non-canonical coordinate)
+		for x0 := int64(1); x0 < 200; x0++ {
+			x := big.NewInt(x0)
+			rhs := new(big.Int).Exp(x, big.NewInt(3), P)
+			rhs.Add(rhs, big.NewInt(7)).Mod(rhs, P)
+			if y := new(big.Int).ModSqrt(rhs, P); y != nil {
+				xb := new(big.Int).Add(x, P).Bytes()
+				yb := y.Bytes()
+				vrfData = make([]byte, 65)
+				vrfData[0] = 4
+				copy(vrfData[33-len(xb):33], xb)
+				copy(vrfData[65-len(yb):65], yb)
+				break
+			}
+		}
+	}
+	rGx, rGy := c.ScalarBaseMult(r.Bytes())
+	rHx, rHy := c.ScalarMult(hx, hy, r.Bytes())
+	sv := vrfChallenge(&k.PublicKey, hx, hy, vrfData, rGx, rGy, rHx, rHy)
+	tv := new(big.Int).Sub(r, new(big.Int).Mul(sv, k.D))
+	tv.Mod(tv, N)
+	out := make([]byte, 129)
+	copy(out[32-len(sv.Bytes()):32], sv.Bytes())
+	copy(out[64-len(tv.Bytes()):64], tv.Bytes())
+	copy(out[64:], vrfData)
+	switch variant {
+	case "forge_trailing":
+		out = append(out, byte(arg))
+	case "forge_leadzero":
+		out = append([]byte{0}, out...)
+	case "forge_tplusn": // t + n has the same effect as t; only possible if it fits 32 bytes
+		if tn := new(big.Int).Add(tv, N); tn.BitLen() <= 256 {
+			copy(out[32:64], make([]byte, 32))
+			copy(out[64-len(tn.Bytes()):64], tn.Bytes())
+		}
+	case "forge_flip":
+		out[int(arg>>4)%129] ^= 1 << uint(arg%8)
+	}
+	return out
+}
+
+var forgeVariants = []string{"forge_nonce", "forge_tag", "forge_tag", "forge_tag", "forge_point", "forge_negy", "forge_xgep",
+	"forge_trailing", "forge_leadzero", "forge_tplusn", "forge_flip"}
+
+// runForge: the decoding step of ProofToHash on an owner-built proof.
+// Oracle (uniqueness): whatever proof is accepted for (key, message) yields the
+// output Evaluate gives; acceptance coincides with the VRF definition.
+func runForge(rec *Rec, toCoq bool) outcome {
+	var o outcome
+	k := ecdsaOf(rec.Key)
+	sk, pk := keyOf(rec.Key)
+	if k == nil || sk == nil {
+		o.class = "bad_key"
+		return o
+	}
+	m := ucon.MakeM(hashHex(rec.Seed), rec.Role, rec.Index)
+	honest, _ := sk.Evaluate(m)
+	proof := forgeProof(k, m, rec.Perturb, rec.PArg)
+	var lo [32]byte
+	var lerr error
+	func() {
+		defer func() {
+			if r := recover(); r != nil {
+				lerr = fmt.Errorf("panic: %v", r)
+			}
+		}()
+		lo, lerr = pk.ProofToHash(m, proof)
+	}()
+	_, _, what := libVsRef(pk, m, proof)
+	o.what = what
+	if lerr == nil && lo != honest {
+		o.what = fmt.Sprintf("VRF output is not unique: an owner-built proof (%s) is accepted for the same key and message with output %x, Evaluate gives %x", rec.Perturb, lo[:6], honest[:6])
+	}
+	if rec.Perturb == "forge_nonce" && (lerr != nil || lo != honest) {
+		o.what = "a proof built as Evaluate builds it (own nonce) is rejected"
+	}
+	acc := "reject"
+	if lerr == nil {
+		acc = "accept"
+	}
+	o.class = "vrfdecode_" + rec.Perturb + "_" + acc
+	o.got = acc
+	if toCoq {
+		oc, dl := false, false
+		sha := new(big.Int)
+		if len(proof) == 129 {
+			d := proof[64:129]
+			x, y, onc, _ := refDecode(d)
+			oc = onc
+			if onc && x.Cmp(crypto.S256().Params().P) < 0 && y.Cmp(crypto.S256().Params().P) < 0 {
+				dl = refDleq(pubOf(pk), m, proof[0:32], proof[32:64], x, y, d)
+			}
+			h := sha256.Sum256(d)
+			sha = new(big.Int).SetBytes(h[:])
+		}
+		xs := make([]string, len(proof))
+		for i, c := range proof {
+			xs[i] = fmt.Sprint(c)
+		}
+		got := "None"
+		if lerr == nil {
+			got = "(Some " + zb(new(big.Int).SetBytes(lo[:])) + ")"
+		}
+		o.coq = fmt.Sprintf("CProof [%s] %s %s %s %s", strings.Join(xs, ";"), vf.Bool(oc), vf.Bool(dl), zb(sha), got)
+	}
+	return o
+}
+
 func hashHex(s string) common.Hash { return common.HexToHash(s) }
 func hInt(h common.Hash) *big.Int  { return new(big.Int).SetBytes(h[:]) }
 
@@ -550,6 +792,8 @@ func run(rec *Rec, toCoq bool) outcome {
 		o = runProtocol(rec, toCoq)
 	case "mgr":
 		o = runManager(rec, toCoq)
+	case "forge":
+		o = runForge(rec, toCoq)
 	}
 	return o
 }
@@ -667,7 +911,7 @@ func runManager(rec *Rec, toCoq bool) outcome {
 				pthS = "(-1)"
 				where := fmt.Sprintf("op %d: %s(round %d, index %d, step %d)", n, op.Op, op.Round, op.Index, step)
 				if asked != nil {
-					if h, err := pk.ProofToHash(asked, view.SortitionProof); err == nil {
+					if h, err, _ := libVsRef(pk, asked, view.SortitionProof); err == nil {
 						pth = 0
 						pthS = zb(new(big.Int).SetBytes(h[:]))
 					}
@@ -786,9 +1030,11 @@ func genManager(r *vf.Rng) *Rec {
 
 // perturbations of a credential (single field each)
 var perturbs = []string{"none", "none", "key", "key", "key_restake", "seed", "index", "role", "seed_index_role", "seats", "proof", "prooflen",
-	"threshold", "stake", "total", "totalzero", "swaproleindex"}
+	"threshold", "stake", "total", "totalzero", "swaproleindex",
+	"forge_tag", "forge_tag", "forge_tag", "forge_nonce", "forge_point", "forge_negy", "forge_trailing"}
 var prioPerturbs = []string{"none", "none", "none", "priority_fewer", "priority_more", "priority_random",
-	"priority_single", "seats", "seed", "key", "key_restake", "role", "index", "seed_index_role", "proof", "totalzero"}
+	"priority_single", "seats", "seed", "key", "key_restake", "role", "index", "seed_index_role", "proof", "totalzero",
+	"forge_tag", "forge_tag", "forge_tag", "forge_nonce", "forge_point", "forge_negy"}
 
 func runProtocol(rec *Rec, toCoq bool) outcome {
 	var o outcome
@@ -824,7 +1070,7 @@ func runProtocol(rec *Rec, toCoq bool) outcome {
 			}
 			o.what = oracleChoose(hInt(val), rec.Stake, thB, total, int64(j), false)
 			// the credential must verify under the issuer's key, exactly when j > 0
-			h2, err := pk.ProofToHash(m, proof)
+			h2, err, _ := libVsRef(pk, m, proof)
 			if err != nil || h2 != [32]byte(val) {
 				o.what = "VrfSortition's proof does not verify to its value"
 			}
@@ -901,6 +1147,30 @@ func runProtocol(rec *Rec, toCoq bool) outcome {
 			}
 		}
 		mustReject = true
+	case "forge_nonce", "forge_tag", "forge_point", "forge_negy", "forge_trailing", "forge_tplusn":
+		// the OWNER of the key builds the proof himself (s, t as Evaluate computes
+		// them) and claims the seat count / priority of the output his encoding
+		// hashes to; only the genuine encoding of the genuine point may pass
+		if k := ecdsaOf(rec.Key); k != nil {
+			for try := int64(0); try < 12; try++ {
+				vproof = forgeProof(k, m, rec.Perturb, rec.PArg+try*256)
+				if len(vproof) != 129 {
+					break
+				}
+				fo := sha256.Sum256(vproof[64:129])
+				vsub = j
+				if thB.Cmp(total) <= 0 && total.Sign() != 0 {
+					if js, _, _, ok := quantile(targetOf(new(big.Int).SetBytes(fo[:])), rec.Stake, thB, total, maxOracleSteps); ok {
+						vsub = uint32(js)
+					}
+				}
+				vprio = ucon.VrfComputePriority(common.Hash(fo), vsub)
+				if rec.Perturb != "forge_tag" || (vsub > 0 && vsub != j) {
+					break // a tag whose output wins other seats than the honest one
+				}
+			}
+		}
+		mustReject = rec.Perturb != "forge_nonce" && rec.Perturb != "forge_tplusn"
 	case "seed_index_role":
 		vseed[rec.PArg%32] ^= 1 << uint(rec.PArg%8)
 		vindex += uint32(1 + rec.PArg%3)
@@ -959,7 +1229,10 @@ func runProtocol(rec *Rec, toCoq bool) outcome {
 		vprio = ucon.VrfComputePriority(val, vsub)
 	}
 	vm := ucon.MakeM(vseed, vrole, vindex)
-	pth, perr := vpk.ProofToHash(vm, vproof) // direct library call: does the proof verify for exactly this key and message?
+	// does the proof verify for exactly this key and message?  Answered by the
+	// harness' own statement of the VRF; the implementation's ProofToHash is
+	// compared with it (libWhat)
+	pth, perr, libWhat := libVsRef(vpk, vm, vproof)
 	vt := [][2]interface{}{}
 	if perr == nil {
 		vt = append(vt, [2]interface{}{vm, new(big.Int).SetBytes(pth[:])})
@@ -998,6 +1271,9 @@ func runProtocol(rec *Rec, toCoq bool) outcome {
 		if o.what == "" {
 			o.what = warmWhat
 		}
+		if o.what == "" {
+			o.what = libWhat
+		}
 		if toCoq && affordable {
 			o.coq = fmt.Sprintf("CVerify %s %d %d %d %d %s %s %s %d", zb(hInt(vseed)), vindex, vrole, vsub, vth, zb(vstake), zb(vtotal), tblCoq(vt), code)
 		}
@@ -1026,6 +1302,9 @@ func runProtocol(rec *Rec, toCoq bool) outcome {
 	}
 	if o.what == "" {
 		o.what = warmWhat
+	}
+	if o.what == "" {
+		o.what = libWhat
 	}
 	if toCoq && affordable {
 		var kt [][2]interface{}
@@ -1283,9 +1562,12 @@ func genRec(r *vf.Rng) *Rec {
 			seed = new(big.Int).Rsh(seed, uint(r.Intn(256)))
 		}
 		return &Rec{Kind: "makem", Seed: hex32(seed), Role: vals[r.Intn(len(vals))], Index: vals[r.Intn(len(vals))]}
-	case k < 61:
+	case k < 60:
 		return genManager(r)
-	case k < 66:
+	case k < 64:
+		return &Rec{Kind: "forge", Key: fmt.Sprintf("%064x", 1+r.Intn(6)), Seed: hex32(new(big.Int).SetBytes(r.Bytes(32))),
+			Role: uint32(1 + r.Intn(5)), Index: uint32(r.Intn(3)), Perturb: forgeVariants[r.Intn(len(forgeVariants))], PArg: int64(r.Intn(1 << 30))}
+	case k < 67:
 		j := int64(r.Heavy(64))
 		if r.Chance(10) {
 			j = []int64{0, 1, 255, 256, 257}[r.Intn(5)]
